@@ -253,7 +253,7 @@ def training_history_case(seq):
     return fn
 
 
-def history_case(seq, stepwise):
+def history_case(seq, stepwise, module_max=False):
     """final compute_pl(B) of a hedger that went through `seq` == that of a fresh hedger"""
 
     def fn(c):
@@ -264,8 +264,11 @@ def history_case(seq, stepwise):
         ulb = cm.make_primary(c, "ulB", 1, 4, cost=api.real(c, "ulB.cost"))
         dB = cm.make_derivative(c, "lookback", ulb, strike=api.real(c, "KB", pos=True))
         inputs = ["log_moneyness", "time_to_maturity", "volatility"] + (["prev_hedge"] if stepwise else [])
-        used = cm.make_hedger(c, inputs, 1, criterion=ExpectedShortfall(0.5))
-        fresh = cm.make_hedger(c, inputs, 1, criterion=ExpectedShortfall(0.5))
+        if module_max:
+            inputs = ["time_to_maturity"] + (["prev_hedge"] if stepwise else [])
+        mk = lambda: inputs + ([cm.make_feature(c, "module_output_max")] if module_max else [])
+        used = cm.make_hedger(c, mk(), 1, criterion=ExpectedShortfall(0.5))
+        fresh = cm.make_hedger(c, mk(), 1, criterion=ExpectedShortfall(0.5))
         dA = A["derivative"]
         for op in seq:
             if op == "hedgeA":
@@ -314,6 +317,10 @@ def cases():
         for sw in (False, True):
             cs.append(Case("history/%s/step=%s" % ("+".join(sq), sw), history_case(sq, sw), encodes=enc,
                            bounds="A: N=2,T=3 European; B: N=1,T=4 lookback", timeout=60))
+    for sq in (("plB",), ("plA", "hedgeB")):
+        for sw in (False, True):
+            cs.append(Case("history/%s/step=%s/module-over-running-max" % ("+".join(sq), sw), history_case(sq, sw, module_max=True), encodes=enc,
+                           bounds="A: N=2,T=3 European; B: N=1,T=4 lookback; ModuleOutput over max_log_moneyness/max_moneyness", timeout=60))
     for sq in (("priceA",), ("lossA", "hedgeB"), ("fitA",), ("priceA", "fitA"), ("loss2A", "plA")):
         cs.append(Case("history-training/%s" % "+".join(sq), training_history_case(sq), encodes=enc + ("Hedger.price", "Hedger.compute_loss", "Hedger.fit"),
                        bounds="A: N=2,T=3 (simulate stub); B: N=1,T=4 lookback; symbolic linear model, SGD with symbolic lr", timeout=120, max_paths=16))
